@@ -123,6 +123,12 @@ impl Prng {
         } else if r < 87 && max > 0x10000 {
             // the three-byte / five-byte length-prefix boundary, where the caller allows objects that large
             *self.pick(&[0xffffusize, 0x10000, 0x10001])
+        } else if r < 89 && max >= 512 {
+            // sizes around powers of two (buffer and chunk sizes live there)
+            let k = 8 + self.below(10) as u32; // 256 .. 131072
+            let base = 1usize << k;
+            let base = if base > max { 1usize << (usize::BITS - 1 - max.leading_zeros()) } else { base };
+            (base + self.below(3) as usize).saturating_sub(1)
         } else if r < 95 {
             self.below(600) as usize
         } else {
